@@ -33,7 +33,7 @@ def summary(sd):
 def seeds():
     m = json.load(open(os.path.join(VERIF, 'seeded', 'MATRIX.json')))
     out = ['| seed | change (first line of its NOTES.md) | caught by its own property | also reported by |', '|---|---|---|---|']
-    n = caught = neutral = 0
+    n = caught = neutral = retired = 0
     for sid in sorted(m):
         sd = os.path.join(VERIF, 'seeded', sid)
         meta = json.load(open(os.path.join(sd, 'meta.json')))
@@ -45,7 +45,7 @@ def seeds():
             v = res.get(p) or {}
             return ', '.join(sorted(set(v.get('rules', []))))
         if meta.get('status') == 'retired':
-            neutral += 1
+            retired += 1
             alarms = sorted(p for p, v in res.items() if v.get('exit') == 1)
             out.append('| {} | {} | retired: its demonstration no longer fails on the repaired tree (see meta.json); still reported by {} | |'.format(sid, summary(sd), ', '.join(alarms) or 'nothing'))
             continue
@@ -65,7 +65,8 @@ def seeds():
             if inc:
                 other += (' ' if other else '') + '(inconclusive, exit 2: {})'.format(', '.join(inc))
         out.append('| {} | {} | {} | {} |'.format(sid, summary(sd), owncol, other))
-    head = '{} seeded changes: {} caught by the check of the property they were written against, {} neutralised by a later fix (checker silent, which is correct), {} missed.\n'.format(n, caught, neutral, n - caught - neutral)
+    head = ('{} seeded changes: {} caught by the check of the property they were written against, {} neutralised by a later fix (checker silent, which is correct), '
+            '{} retired (no longer demonstrated), {} missed.\n').format(n, caught, neutral, retired, n - caught - neutral - retired)
     return head + '\n' + '\n'.join(out)
 
 
